@@ -285,7 +285,9 @@ fn find_miri(r: &mut Runner, rev: bool) {
             for o in r.mine_in_block(base, block) {
                 let place = places[(o as usize) / apis.len()];
                 let api = apis[(o as usize) % apis.len()];
-                let set: [u8; 3] = [b'a', 0x80, 0xFF];
+                // needle sets rotate, including duplicated needles
+                let sets: [[u8; 3]; 4] = [[b'a', 0x80, 0xFF], [b'x', b'x', 0x00], [b'k', b'q', b'k'], [0xFF, 0xFF, 0xFF]];
+                let set = sets[((o / 4 + base) % 4) as usize];
                 let nd = &set[..api.n as usize];
                 build_hay(&mut buf, len, p, nd, rev, (o % 4) as usize);
                 r.run0(api, &buf, nd, place, Place::Heap, len > 0);
